@@ -616,7 +616,8 @@ func init() {
 				{append([]byte{0x00}, gen.Push(append([]byte{0x30, 0x06, 0x02, 0x01, 0x01, 0x02, 0x01, 0x01}, 0x01))...), append(append(append([]byte{0x51}, pk...), gen.Push(c07Key2G)...), 0x52, 0xaf, 0x51)},
 				{gen.Push(append([]byte{0x30, 0x06, 0x02, 0x01, 0x01, 0x02, 0x01, 0x01}, 0x01)), append(append([]byte{}, pk...), 0xad, 0x51)}, // CHECKSIGVERIFY
 			}
-			tails := [][]byte{nil, {0x6a}, {0x6a, 0xff}, {0x6a, 0x01, 0x02}, {0x51}, {0x91}, {0xab, 0x51}, {0x75, 0x51, 0x6a, 0x42}}
+			tails := [][]byte{nil, {0x6a}, {0x6a, 0xff}, {0x6a, 0x01, 0x02}, {0x51}, {0x91}, {0xab, 0x51}, {0x75, 0x51, 0x6a, 0x42},
+				{0x6a, 0xab}, {0x6a, 0xab, 0xab, 0xab}, {0x6a, 0x00, 0xab}, {0x6a, 0xab, 0x00}} // behind a top-level OP_RETURN: nothing but bytes with the value of OP_CODESEPARATOR
 			flagSets := []uint32{0, uint32(scriptflag.UTXOAfterGenesis), uint32(scriptflag.UTXOAfterGenesis | scriptflag.EnableSighashForkID), uint32(scriptflag.VerifyNullFail | scriptflag.StrictMultiSig)}
 			for _, pre := range prefixes {
 				for _, m := range multis {
